@@ -986,8 +986,18 @@ fn run_family<S: Fam>(bufsize: usize, events: &[&str]) -> String {
     let offset = Rc::new(Cell::new(start));
     let mut buffer = vec![0u8; bufsize];
     let localhost: core::net::IpAddr = core::net::IpAddr::V4(core::net::Ipv4Addr::LOCALHOST);
-    let config =
+    // `txmax<n>` next: the transmit buffer takes at most n bytes of the client's memory, so the session state (where
+    // unacknowledged QoS 1 publications wait) holds several publications and `can_publish()` stays true for more than
+    // one loop pass of `iter_list` / `iter_dump` per `update()` (with minimq's even split exactly one fits)
+    let (txmax, events) = match events.first().and_then(|e| e.strip_prefix("txmax")).and_then(|v| v.parse::<usize>().ok()) {
+        Some(v) => (Some(v), &events[1..]),
+        None => (None, events),
+    };
+    let mut config =
         minimq::ConfigBuilder::<minimq::broker::IpBroker>::new(localhost.into(), &mut buffer);
+    if let Some(n) = txmax {
+        config = config.tx_buffer(minimq::config::BufferConfig::Maximum(n));
+    }
     let client = match Client::<S>::new(
         Stack(world.clone()),
         PREFIX,
